@@ -280,6 +280,19 @@ theorem iter_ids_stable (C : Consts) (sizes : Nat → Nat) (s s' : S) (hq : s.li
               simp only [Option.some.injEq] at h; rw [← h]
               exact (map_id_set cs idx c c' hget (writeTo_id { c with calls := rest, k := c.k + 1 } c' _ hwr)).trans hsc_ids
             · simp only [Option.some.injEq] at h; rw [← h] at hlen; exact absurd hlen (fun hl => hsr _ rfl hl)
+        | unser ow =>
+          cases ow with
+          | false => simp only [Option.some.injEq] at h; rw [← h] at hlen; exact absurd hlen (fun hl => hsr _ rfl hl)
+          | true =>
+            simp only [] at h
+            split at h
+            · simp only [Option.some.injEq] at h; rw [← h]
+              exact (map_id_set cs idx c { c with calls := rest, k := c.k + 1 } hget rfl).trans hsc_ids
+            · split at h
+              · rename_i c' hwr
+                simp only [Option.some.injEq] at h; rw [← h]
+                exact (map_id_set cs idx c c' hget (writeTo_id { c with calls := rest, k := c.k + 1 } c' _ hwr)).trans hsc_ids
+              · simp only [Option.some.injEq] at h; rw [← h] at hlen; exact absurd hlen (fun hl => hsr _ rfl hl)
         | fail ow =>
           simp only [] at h
           split at h
